@@ -317,6 +317,13 @@ def run_property(mod, tier: str, seed: int, replay: str | None = None) -> int:
             print(f"HARNESS-ERROR property={prop_id} oracle self-test failed")
             return 2
 
+    if hasattr(mod, "prepare"):
+        try:
+            mod.prepare(tier, seed)
+        except Exception:
+            traceback.print_exc()
+            print(f"HARNESS-ERROR property={prop_id} prepare() failed")
+            return 2
     if replay:
         part, case, res = replay_file(mod, Path(replay))
         bad = [(s, m) for s, m in res.violations if s not in known]
@@ -490,6 +497,11 @@ def run_property(mod, tier: str, seed: int, replay: str | None = None) -> int:
             f"  part {name}: {pp['evaluations']} cases, "
             f"{pp['distinct_nontrivial']} non-trivial; labels {pp['labels']}"
         )
+    if hasattr(mod, "cleanup"):
+        try:
+            mod.cleanup()
+        except Exception:  # noqa: BLE001
+            pass
     if total.n and len(total.nontrivial) < 2:
         print(f"HARNESS-ERROR property={prop_id} generator produced <2 non-trivial cases")
         return 2
